@@ -44,6 +44,8 @@ def gen_site(rng, name, del_ids, nworkers=None):
         add({'op': 'service_add_interface', 'service': ns_name, 'name': pn, 'node_id': pid, 'itype': 'TrunkPort', 'kw': kw})
         if stitch:
             s.stitch.append(pid)
+        # switch ports can carry delegations of their own: the two ends of a link may then belong to different delegation ids
+        delegable.append((pid, 'port'))
         return pn, pid
     link_k = [0]
 
